@@ -124,6 +124,11 @@ def Let(x, e, t=None):
     return n
 
 
+def TypeDef(name, ty):
+    """statement `type name = ty;`"""
+    return {"k": "typedef", "n": name, "t": ty}
+
+
 def As(e, ty):
     return {"k": "cast", "e": e, "ty": ty, "p": newp()}
 
@@ -170,7 +175,7 @@ def Trigger(cb, ev, *args):
     return {"k": "trigger", "cb": cb, "ev": ev, "args": list(args), "p": newp()}
 
 
-def Program(pid, fns, globs=(), feats=None, sings=(), host=None, imports=(), impls=()):
+def Program(pid, fns, globs=(), feats=None, sings=(), host=None, imports=(), impls=(), types=()):
     """sings: [(name, type text, zero value expr)]; host: {name: (value expr, JV)} values the host provides;
     impls: [{"templ", "caps" (list or None), "sing", "methods": [function names]}] - the methods are entries of fns"""
     host = host or {}
@@ -181,7 +186,8 @@ def Program(pid, fns, globs=(), feats=None, sings=(), host=None, imports=(), imp
         return {"k": "default", "t": tyspec.parse_type(t)}
     sg = [{"x": n, "e": (host[n][0] if n in host else zero(t, z)), "decl": t} for n, t, z in sings]
     return {"id": pid, "fns": fns, "globals": sg + [{"x": x, "e": e} for x, e in globs], "feats": feats or {},
-            "host": {n: v[1] for n, v in host.items()}, "imports": list(imports), "impls": [dict(i) for i in impls]}
+            "host": {n: v[1] for n, v in host.items()}, "imports": list(imports), "impls": [dict(i) for i in impls],
+            "types": [{"n": n, "t": t} for n, t in types]}
 
 
 # ---- rendering -----------------------------------------------------------------------------
@@ -491,7 +497,9 @@ def r_block(w, n, ind):
 def r_stmt(w, n, ind):
     k = n["k"]
     start = w.pos()
-    if k == "let":
+    if k == "typedef":
+        w.w("type %s = %s;" % (n["n"], n["t"]))
+    elif k == "let":
         w.w("let %s%s = " % (n["x"], ": " + n["t"] if n.get("t") else ""))
         r_expr(w, n["e"], ind)
         w.w(";")
@@ -541,6 +549,8 @@ def render(prog, minimal=False):
     w = W(minimal)
     for imp in prog.get("imports", ()):
         w.w(imp + "\n")
+    for td in prog.get("types", ()):
+        w.w("type %s = %s;\n" % (td["n"], td["t"]))
     for g in prog["globals"]:
         if "decl" in g:                      # a singleton: declared by its type, initialised by the host / zero value
             w.w("%s = %s;\n" % (g["x"], g["decl"]))
